@@ -87,7 +87,26 @@ fn blanks(rng: &mut Rng, plain: bool, min: usize) -> String {
 fn comment_text(rng: &mut Rng) -> String {
     let pool: Vec<char> = " abcXYZ019;:,.()+-*#!\t\"'<>=_éß€λ\\/".chars().collect();
     let n = rng.below(24);
-    (0..n).map(|_| *rng.pick(&pool)).collect()
+    let mut t: String = (0..n).map(|_| *rng.pick(&pool)).collect();
+    // characters Unicode counts as white space but the parser's trimming (blank, tab, semicolon) does
+    // not: at the ends of a comment they must survive formatting and re-parsing
+    let exotic: Vec<char> = "\u{b}\u{c}\u{85}\u{a0}\u{1680}\u{2003}\u{2028}\u{2029}\u{202f}\u{205f}\u{3000}\u{feff}\u{200b}".chars().collect();
+    if rng.chance(1, 4) {
+        for _ in 0..1 + rng.below(2) {
+            t.push(*rng.pick(&exotic));
+        }
+        if rng.chance(1, 3) {
+            t.push(' ');
+        }
+    }
+    if rng.chance(1, 8) {
+        t.insert(0, *rng.pick(&exotic));
+    }
+    if rng.chance(1, 8) && !t.is_empty() {
+        let k = t.char_indices().nth(rng.below(t.chars().count() as u64) as usize).map(|(i, _)| i).unwrap_or(0);
+        t.insert(k, *rng.pick(&exotic));
+    }
+    t
 }
 pub fn trim_comment(s: &str) -> String {
     s.trim_matches(|c| " \t;".contains(c)).to_string()
